@@ -393,6 +393,14 @@ func goParse(src string) (res J, p *path.Path) {
 	if err != nil {
 		return J{"out": "err"}, nil
 	}
+	var rx []*ast.RegexNode
+	regexNodes(pp.AST.Root(), &rx)
+	for _, n := range rx {
+		if !regexCompiles(n) {
+			// C04: an accepted like_regex compiles when it is executed
+			return J{"out": "glue", "what": "an accepted like_regex does not compile at execution time"}, nil
+		}
+	}
 	return J{"out": "ok", "ast": encAST(pp.AST), "str": pp.String()}, pp
 }
 
